@@ -383,6 +383,61 @@ def run(tier, seed):
                 if why:
                     fails += 1
                     rep.violation("loop-agnostic:%s" % n, {"operation": n, "sync": sync, "why": why})
+        # (3) long synchronous inputs: however many items a regular iterable has, nothing suspends -- the library has no
+        # suspension of its own to offer (no "be nice to the loop" pauses)
+        N = 20000
+        big = {
+            "list": lambda: a.list(range(N)), "sum": lambda: a.sum(range(N)), "max": lambda: a.max(range(N)), "sorted(key)": lambda: a.sorted(range(N), key=lambda x: -x),
+            "reduce": lambda: a.reduce(lambda x, y: y, range(N)), "list(map)": lambda: a.list(a.map(lambda x: x, range(N))), "list(filter)": lambda: a.list(a.filter(None, range(N))),
+            "list(islice(cycle))": lambda: a.list(a.islice(a.cycle(range(7)), N)), "list(zip)": lambda: a.list(a.zip(range(N), range(N))), "any": lambda: a.any(0 for _ in range(N)),
+            "dict": lambda: a.dict((i, i) for i in range(N)), "list(enumerate)": lambda: a.list(a.enumerate(iter(range(N)))), "list(chain)": lambda: a.list(a.chain(range(N), range(N))),
+            "nlargest": lambda: a.nlargest(range(N), 3), "list(any_iter)": lambda: a.list(a.any_iter(range(N))), "list(accumulate)": lambda: a.list(a.accumulate(range(N))),
+            "tee": lambda: a.list(a.tee(range(N), 1)[0]), "list(groupby keys)": lambda: a.list(a.map(lambda kg: kg[0], a.groupby(range(N), key=lambda x: x // 5000))),
+        }
+        for nm, mk in big.items():
+            coro = mk()
+            why = None
+            try:
+                got = coro.send(None)
+                why = "%s over %d items of a regular iterable suspended with %r although nothing the user supplied suspends" % (nm, N, got)
+                coro.close()
+            except StopIteration:
+                pass
+            except BaseException as e:  # noqa
+                why = "%s over %d items failed with %r" % (nm, N, e)
+            rep.count(("long-sync-input", nm), True)
+            if why:
+                fails += 1
+                rep.violation("loop-agnostic:suspends-without-cause", {"operation": nm, "items": N, "why": why})
+        # (4) two tasks: one is suspended inside a child of a tee (in the user's source), another closes the tee / that child /
+        # a sibling at that moment: whatever the library does about it (it refuses to close a running child), it does
+        # not wait by suspending on something of its own -- only tokens of user awaitables ever reach the loop
+        for target in ("tee", "busy child", "sibling"):
+            ctx = Ctx(None)
+            its = [Obj(i + 1, i % 3) for i in range(4)]
+            t = a.tee(Src(ctx, 0, its, suspend=True), 2)
+            step = t[0].__anext__()
+            why = None
+            try:
+                first = step.send(None)
+                closer = {"tee": t.aclose, "busy child": t[0].aclose, "sibling": t[1].aclose}[target]()
+                seen = []
+                try:
+                    for _ in range(6):
+                        seen.append(closer.send(None))
+                    closer.close()
+                except (StopIteration, RuntimeError):
+                    pass
+                foreign = [x for x in seen if x not in getattr(ctx, "issued", [])]
+                if foreign:
+                    why = "closing the %s while a task is suspended inside a child suspended on %r, which no user awaitable issued" % (target, foreign[:2])
+                step.close()
+            except BaseException as e:  # noqa
+                why = "failed with %r" % (e,)
+            rep.count(("close-while-child-busy", target), True)
+            if why:
+                fails += 1
+                rep.violation("loop-agnostic:tee-close-busy", {"closed": target, "why": why})
     if poison.touched:
         fails += 1
         rep.violation("loop-agnostic:asyncio-touched", {"why": "the library touched asyncio.%s" % poison.touched[0]})
